@@ -1,12 +1,18 @@
 """C10 — CGNAT port blocks never overlap and are always attributable."""
+import os
+import sys
+
 import verif as V
 
+sys.path.insert(0, os.path.dirname(os.path.abspath(__file__)))
+import c10_natkern  # noqa: E402  (kernel level: the real nat.Manager together with the natively compiled nat44.c)
+
 PROP = "C10"
-SPEC = "Bng.Spec.C10"
+SPEC = ["Bng.Spec.C10"] + c10_natkern.SPEC
 MON = ["overlap", "range", "stable", "attrib"]
 COMPS = [
     V.Component("nat", monitors=MON),
-]
+] + c10_natkern.COMPS
 LEVEL = ("No-overlap, in-range/size (no uint16 wrap), stable-until-released and log attribution (at most one "
          "answer, and it is the holder) are theorems over the Lean model of nat.Manager + the port-block records of "
          "nat.Logger for ALL histories of the code's critical sections (AllocateNAT is two steps, precheck and "
@@ -18,7 +24,8 @@ LEVEL = ("No-overlap, in-range/size (no uint16 wrap), stable-until-released and 
          "flushing after each call (`buffer`), park a Logger.Flush/FlushPortBlocks inside its first Write through a stalling "
          "writer (`flushhold`) while allocations and releases go on, and then let it finish and flush again (`flushrelease`); "
          "the `attrib` clause includes a record ledger (every observed allocation/release owes exactly one record; duplicates, "
-         "strays and records missing after the final flush are failures), proved silent on the model (ledger_silent_on_model).")
+         "strays and records missing after the final flush are failures), proved silent on the model (ledger_silent_on_model). "
+         + c10_natkern.LEVEL)
 ASSUME = [
     "each critical section is one atomic step (AllocateNAT: lookup under allocationMu.RLock, then everything under poolMu; "
     "DeallocateNAT and AddPublicIP: one section under poolMu); data races inside a critical section are not modelled",
@@ -31,12 +38,17 @@ ASSUME = [
     "the model's log is the sequence of records in emission order; the logger's buffering is modelled in the driver only (records of a "
     "`buffer` … `flushrelease` stretch are compared when flushed); at most 40 calls per stretch (below the logger's own 50-record auto-flush); "
     "rotation, file output, the background flushLoop's timing and Stop are not exercised",
-]
+] + c10_natkern.ASSUME
 
 
 def run(tier, seed):
-    return V.standard_check(PROP, SPEC, COMPS, LEVEL, ASSUME, tier, seed)
+    return V.standard_check(PROP, SPEC, COMPS, LEVEL, ASSUME, tier, seed, pre=c10_natkern.pre)
 
 
 def replay(path):
-    return V.replay(PROP, COMPS, path, SPEC)
+    ctx = V.Ctx(PROP, "quick", 0)
+    try:
+        c10_natkern.pre(ctx)
+        return V.replay(PROP, COMPS, path, SPEC)
+    finally:
+        ctx.cleanup()
